@@ -60,6 +60,7 @@ typedef struct T {
 
 static const char *g_variant = "asan";
 static int g_single;       /* replaying one case: verbose */
+static FILE *g_verbose;
 static mpz_t ZA, ZB, ZC, ZE, ZE2, ZT, ZT2, ZG;
 
 /* State shared (MAP_SHARED) between the shard parent and its forked batch children, so that
@@ -658,7 +659,7 @@ static void op_mulmod(T *t)
 static void op_exptmod(T *t)
 {
     static const int psz[] = { 8, 8, 8, 8, 8, 8, 8, 16, 16, 16, 16, 16, 16, 24, 24, 32, 32, 32, 48, 64 };
-    pstm_int op; int n, xk, gk, i, even = 0;
+    pstm_int op; int n, xk, gk, even = 0;
     val_t *vp = &t->vc;
     t->fn = "pstm_exptmod";
     n = psz[t->j % 20];
@@ -1106,9 +1107,10 @@ static void run_case(int opid, long j)
     OPS[opid].fn(t);
     if (t->dirty && (t->dirty == &t->oa || t->dirty == &t->ob || t->dirty == &t->oc || t->dirty == &t->od)) followup_dirty(t);
     if (g_single) {
-        gmp_fprintf(stderr, "case op=%s j=%ld seed=%llu variant=%s fn=%s rc=%d %s\n  digits a=%d b=%d c=%d kinds=%s,%s,%s alias=%s stale=%s\n  a=%Zx\n  b=%Zx\n  c=%Zx\n  expected=%Zx\n  violations in this case: %d\n",
+        gmp_fprintf(g_verbose ? g_verbose : stderr, "case op=%s j=%ld seed=%llu variant=%s fn=%s rc=%d %s\n  digits a=%d b=%d c=%d kinds=%s,%s,%s alias=%s stale=%s\n  a=%Zx\n  b=%Zx\n  c=%Zx\n  expected=%Zx\n  violations in this case: %d\n",
                     t->op, j, (unsigned long long) vf_seed, g_variant, t->fn, t->rc, t->extra, t->va.used, t->vb.used, t->vc.used,
                     kname[t->ka], kname[t->kb], kname[t->kc], alname[t->alias], stname[t->stale], ZA, ZB, ZC, ZE, t->nbad);
+        if (g_verbose) fflush(g_verbose);
     }
     cleanup(t);
     free(t);
@@ -1160,7 +1162,11 @@ int main(int argc, char **argv)
         vf_seed = sd; g_single = 1;
         batch_t b = { i, j, j + 1 };
         snprintf(SH->spec, sizeof SH->spec, "%s", vf_case);
-        vf_fork_case(run_batch, &b, OPS[i].name, SH->spec, 600);
+        /* vf_fork_case leaves the child's stderr alone when vf_case is set, which would lose the
+         * sanitizer report (and with it the finding's key) on a replayed abort: let it capture
+         * stderr as in a normal run and print the verbose case description to the real stderr. */
+        g_verbose = fdopen(dup(2), "w");
+        { const char *saved = vf_case; vf_case = NULL; vf_fork_case(run_batch, &b, OPS[i].name, SH->spec, 600); vf_case = saved; }
         publish();
         vf_flush();
         return 0;
@@ -1172,7 +1178,7 @@ int main(int argc, char **argv)
         for (j0 = 0; j0 < n; j0 += bsz, bi++) {
             long from = j0, to = j0 + bsz < n ? j0 + bsz : n;
             if (!vf_mine(bi)) continue;
-            if (hangs[i] >= 2) { stat_addf(to - from, "skipped_after_crashes_%s", OPS[i].name); continue; }
+            if (hangs[i] >= 1) { stat_addf(to - from, "skipped_after_crashes_%s", OPS[i].name); continue; }
             while (from < to) {
                 batch_t b = { i, from, to };
                 SH->cur = from - 1; SH->spec[0] = 0;
@@ -1183,10 +1189,10 @@ int main(int argc, char **argv)
                 if (rc == 2) { SH->crashcnt[i][SH->cursig & 255] = 255; hangs[i]++; }       /* a hang costs a whole timeout: skip its class at once */
                 else if (SH->crashcnt[i][SH->cursig & 255] < 255) SH->crashcnt[i][SH->cursig & 255]++;
                 from = SH->cur + 1;
-                if (++crashes[i] >= crash_budget || hangs[i] >= 2) { stat_addf(to - from, "skipped_after_crashes_%s", OPS[i].name); break; }
+                if (++crashes[i] >= crash_budget || hangs[i] >= 1) { stat_addf(to - from, "skipped_after_crashes_%s", OPS[i].name); break; }
             }
             publish();
-            if (hangs[i] >= 2) { stat_addf(1, "op_abandoned_after_hangs_%s", OPS[i].name); }
+            if (hangs[i] >= 1) { stat_addf(1, "op_abandoned_after_hangs_%s", OPS[i].name); }
         }
     }
     publish();
